@@ -488,5 +488,7 @@ def is_regex_sub(global_name, repl=""):
             return len(x[3]) >= 1 and (repl is None or x[3][0] == ("const", repl))
         if x[0] == "call" and x[1] == "re.sub" and len(x[2]) >= 2 and x[2][0] == ("global", global_name):
             return repl is None or x[2][1] == ("const", repl)
+        if x[0] == "call" and x[1] == global_name + ".sub" and len(x[2]) >= 1:
+            return repl is None or x[2][0] == ("const", repl)
         return False
     return pred
